@@ -3,6 +3,7 @@ package props
 import (
 	"fmt"
 
+	"sidever/internal/concr"
 	"sidever/internal/ev"
 	"sidever/internal/pipe"
 )
@@ -49,4 +50,10 @@ func handlerRefusesDeactivated(c *ev.Ctx) {
 		c.Cov.Extra[fmt.Sprintf("handler_behaviours_with_submission_after_deactivate_unpub_%v", unpub)] = c.Cov.DistinctNontrivial - before
 	}
 }
-func intakeRecommit(c *ev.Ctx)            {}
+// intakeRecommit: C12 (intake half) - the real parser rejects every update / recover whose next commitment is the
+// commitment of the key it reveals (computed with the algorithm the next commitment names) and every create / recover
+// whose update and recovery commitments are equal; the valid baselines are accepted. All five key types.
+func intakeRecommit(c *ev.Ctx) {
+	cases := runIntakeTLC(c)
+	evalIntake(c, cases, concr.KeyTypes, func(cs *intakeCase) bool { return cs.Req.Next != "fresh" || cs.Ndev == 0 }, "recommit")
+}
